@@ -92,7 +92,8 @@ pub const DEFAULT_RM: u32 = 16;
 #[derive(Debug)]
 pub struct RtoCalculator {
     rtt: Duration,
-    rm: u32,
+    // Interval before the next retransmission: the RTO, doubled after each one
+    rto: Duration,
     rc: u32,
     last_rm: u32,
 }
@@ -101,7 +102,7 @@ impl Default for RtoCalculator {
     fn default() -> Self {
         Self {
             rtt: DEFAULT_RTO,
-            rm: 1,
+            rto: DEFAULT_RTO,
             rc: DEFAULT_RC,
             last_rm: DEFAULT_RM,
         }
@@ -119,7 +120,7 @@ impl RtoCalculator {
     pub fn new(rtt: Duration, last_rm: u32, rc: u32) -> Self {
         Self {
             rtt,
-            rm: 1,
+            rto: rtt,
             rc,
             last_rm,
         }
@@ -138,10 +139,10 @@ impl RtoCalculator {
             self.rtt * self.last_rm
         } else {
             // Apply the retransmission multiplier
-            self.rtt * self.rm
+            self.rto
         };
 
-        self.rm *= 2;
+        self.rto = self.rto.saturating_mul(2);
         self.rc -= 1;
 
         Some(rto)
